@@ -528,7 +528,7 @@ impl Packet {
                 let token = buf[4..options_start].to_vec();
 
                 let mut idx = options_start;
-                let mut options_number = 0;
+                let mut options_number: u32 = 0;
                 let mut options: BTreeMap<u16, LinkedList<Vec<u8>>> =
                     BTreeMap::new();
                 while idx < buf.len() {
@@ -538,7 +538,7 @@ impl Packet {
                         break;
                     }
 
-                    let mut delta = (byte >> 4) as u16;
+                    let mut delta = (byte >> 4) as u32;
                     let mut length = (byte & 0xF) as usize;
 
                     idx += 1;
@@ -549,7 +549,7 @@ impl Packet {
                             if idx >= buf.len() {
                                 return Err(MessageError::InvalidOptionLength);
                             }
-                            delta = u16::from(buf[idx]) + 13;
+                            delta = u32::from(buf[idx]) + 13;
                             idx += 1;
                         }
                         14 => {
@@ -557,11 +557,8 @@ impl Packet {
                                 return Err(MessageError::InvalidOptionLength);
                             }
 
-                            delta = u16::from_be(u8_to_unsigned_be!(
-                                buf,
-                                idx,
-                                idx + 1,
-                                u16
+                            delta = u32::from(u16::from_be(
+                                u8_to_unsigned_be!(buf, idx, idx + 1, u16),
                             )) + 269;
                             idx += 2;
                         }
@@ -598,6 +595,9 @@ impl Packet {
                     };
 
                     options_number += delta;
+                    if options_number > u32::from(u16::MAX) {
+                        return Err(MessageError::InvalidOptionDelta);
+                    }
 
                     let end = idx + length;
                     if end > buf.len() {
@@ -606,7 +606,7 @@ impl Packet {
                     let options_value = buf[idx..end].to_vec();
 
                     options
-                        .entry(options_number)
+                        .entry(options_number as u16)
                         .or_default()
                         .push_back(options_value);
 
